@@ -412,6 +412,15 @@ def validate_signature(
         return _wrap_fn_partial(func)
 
 
+def _safe_repr(obj: Any) -> str:
+    # the offending value is the caller's: its ``__repr__`` may itself raise, which
+    # must not replace the error being reported
+    try:
+        return repr(obj)
+    except Exception:
+        return f"<{type(obj).__name__} instance>"
+
+
 def _trunc_str(s: str, max_chars: int) -> str:
     ellip = "..."
     ellip_len = len(ellip)
@@ -472,19 +481,19 @@ def _get_arg_fail_message(invalid: Invalid, indent: str = "", prefix: str = "") 
         for key, key_val_errs in err_type.keys.items():
             if key_val_errs.key:
                 next_ = _get_arg_fail_message(
-                    key_val_errs.key, next_indent, prefix=f"{repr(key)} (key): "
+                    key_val_errs.key, next_indent, prefix=f"{_safe_repr(key)} (key): "
                 )
                 ret += f"\n{next_}"
             if key_val_errs.val:
                 next_ = _get_arg_fail_message(
-                    key_val_errs.val, next_indent, prefix=f"{repr(key)} (val): "
+                    key_val_errs.val, next_indent, prefix=f"{_safe_repr(key)} (val): "
                 )
                 ret += f"\n{next_}"
     elif isinstance(err_type, SetErrs):
         ret += f"{err_type.__class__.__name__}\n"
         ret += "\n".join(
             [
-                f"{_get_arg_fail_message(e, next_indent)} :: {_trunc_str(repr(e.value), 30)}"  # noqa: E501
+                f"{_get_arg_fail_message(e, next_indent)} :: {_trunc_str(_safe_repr(e.value), 30)}"  # noqa: E501
                 # noqa: E501
                 for e in err_type.item_errs
             ]
@@ -495,7 +504,7 @@ def _get_arg_fail_message(invalid: Invalid, indent: str = "", prefix: str = "") 
 
 def _get_args_fail_msg(errs: Dict[str, Invalid]) -> str:
     messages = [
-        f"{k}={_trunc_str(repr(v.value), 60)}\n{_get_arg_fail_message(v, '    ')}"
+        f"{k}={_trunc_str(_safe_repr(v.value), 60)}\n{_get_arg_fail_message(v, '    ')}"
         for k, v in errs.items()
     ]
     return "\n".join(messages)
